@@ -28,6 +28,7 @@ type ReplayPlan struct {
 	IndexName string            // loop index (step)
 	PhiParam  map[string]string // header phi name -> source parameter it is initialised from
 	PhiResult map[string]int    // header phi name -> result index it flows to
+	NaNParams []string          // logical names of parameters that are NaN (NaN mode)
 }
 
 type ReplayOutcome struct {
@@ -116,6 +117,9 @@ func (fr *Frame) stepReplayValues(li *loopInfo, e *State) ([]namedTerm, *ReplayP
 // postReplayValues: terms for a postcondition / safety obligation (entry state).
 func (c *Ctx) postReplayValues(fr *Frame, st0 *State, kind string) ([]namedTerm, *ReplayPlan) {
 	plan := &ReplayPlan{Kind: kind, Fn: fr.fn}
+	if c.fc != nil {
+		plan.NaNParams = c.fc.NaNParams
+	}
 	var vals []namedTerm
 	vals = append(vals, c.paramVals...)
 	for i, p := range fr.fn.Params {
@@ -205,9 +209,19 @@ func runReplay(r *OblResult, cs *Contracts) *ReplayOutcome {
 	var nds []ndp
 	var slices []string
 	inputs := map[string]interface{}{}
-	for _, p := range fn.Params {
+	lnames := paramNames(fn)
+	if plan.Names != nil {
+		lnames = plan.Names
+	}
+	for pi, p := range fn.Params {
 		name := p.Name()
 		v := "a_" + name
+		isNaN := false
+		for _, np := range plan.NaNParams {
+			if np == lnames[pi] {
+				isNaN = true
+			}
+		}
 		switch t := p.Type().Underlying().(type) {
 		case *types.Basic:
 			src := "p/" + name
@@ -225,6 +239,9 @@ func runReplay(r *OblResult, cs *Contracts) *ReplayOutcome {
 			switch {
 			case t.Info()&types.IsFloat != 0:
 				f := ratToFloat(mv)
+				if isNaN {
+					f = math.NaN()
+				}
 				setup = append(setup, fmt.Sprintf("var %s %s = %s(%s)", v, types.TypeString(p.Type(), nil), types.TypeString(p.Type(), nil), goFloat(f)))
 				inputs[name] = f
 			case t.Info()&types.IsInteger != 0:
